@@ -235,6 +235,8 @@ pub struct World<C: Cfg> {
     pub n_slots: usize,
     /// a handle / iterator / item was leaked with mem::forget in the last operation
     pub forgot: bool,
+    /// length of each slot when its spare capacity was last poisoned
+    pub prev_len: [usize; 3],
     _p: PhantomData<C>,
 }
 
@@ -269,6 +271,7 @@ impl<C: Cfg> World<C> {
             op_panicked: false,
             n_slots: 2,
             forgot: false,
+            prev_len: [0; 3],
             _p: PhantomData,
         })
     }
@@ -613,17 +616,21 @@ impl<C: Cfg> World<C> {
             let Some(v) = self.vecs[s].as_mut() else { continue };
             let (len, cap) = (v.len(), v.capacity());
             if cap <= len {
+                self.prev_len[s] = len;
                 continue;
             }
-            // everything behind len (a partially poisoned spare region would leave stale copies of
-            // moved-out elements for the backend's release probe to trip over)
-            let n = (cap - len).saturating_mul(size).min(alloc::VIRT_LIMIT);
+            // Heap / guard blocks are handed out poison-filled, so only the window the last
+            // operation can have dirtied needs re-poisoning: from len up to the previous length
+            // (+ slack). Inline storage starts uninitialised: poison all of it.
+            let window = if self.flav[s].is_inline() { cap - len } else { (self.prev_len[s].max(len) + 64).min(cap) - len };
+            let n = window.saturating_mul(size).min(alloc::VIRT_LIMIT);
             let base = v.downcast_mut::<C::T>().unwrap().as_mut_ptr() as *mut u8;
             // storage served virtually (huge request): only the first VIRT_SIZE bytes exist
             if (len * size).saturating_add(n) > alloc::VIRT_SIZE && cap.saturating_mul(size) > alloc::VIRT_LIMIT {
                 continue;
             }
             unsafe { std::ptr::write_bytes(base.add(len * size), elem::POISON, n) };
+            self.prev_len[s] = len;
         }
     }
 
